@@ -4,7 +4,7 @@ SPEC = {
     "props_module": "C20",
     "model_vo": "theories/C20/Model.vo",
     "bin": "c20",
-    "n": {"quick": 14, "thorough": 90},
+    "n": {"quick": 40, "thorough": 120},
     "rule": "engine c20: n worlds as in c10 (two text fields, sortable single-/multi-valued fast fields with missing values, "
             "1-4 segments, repeated batches, tombstones); per world 6 (quick) / 10 (thorough) requests: a random scored "
             "query tree (term / query_string / multi_match / bool / dis_max / constant_score / function_score), optional "
